@@ -176,12 +176,14 @@ def smooth_resid(case, x):
     """The deterministic part of the residual at x (no noise, no fault, no script)."""
     f = case["fam"]
     n = case["n"]
-    if f in ("lin", "sinlin", "hashed", "boxdomain"):
+    if f in ("lin", "sinlin", "hashed", "boxdomain", "hinge"):
         A = np.array(case["A"], dtype=float).reshape(case["m"], n)
         b = np.array(case["b"], dtype=float)
         r = A.dot(x) - b
         if f == "sinlin":
             r = r + case["gamma"] * np.sin(case["omega"] * A.dot(x) + np.arange(case["m"]))
+        elif f == "hinge":
+            r = np.maximum(r, 0.0)      # piecewise linear: flat (zero gradient) once a residual has been driven to zero
         elif f == "hashed":
             r = r + case["amp"] * prf(case["prf_seed"], np.ascontiguousarray(x, dtype=float).tobytes(), case["m"])
         elif f == "boxdomain":
@@ -707,8 +709,8 @@ def draw_options(draw, n, npt, prof, has_two_sided, force_opt=None):
             o = force_opt
         if o == 0 and n > 1 and npt == n + 1 and "restarts.increase_npt" not in up:
             up["growing.ndirs_initial"] = draw(st.integers(1, n - 1))
-            g = draw(st.sampled_from(["default", "perturb", "newdirs", "geom", "safety_reduce", "safety_full", "reset",
-                                      "gamma_dec", "no_safety", "delta_scale", "full_rank_params"]))
+            g = draw(st.sampled_from(prof.get("growing_list") or ["default", "perturb", "newdirs", "geom", "safety_reduce", "safety_full", "reset",
+                                                                  "gamma_dec", "no_safety", "delta_scale", "full_rank_params"]))
             if g == "perturb":
                 up["growing.full_rank.use_full_rank_interp"] = False
                 up["growing.perturb_trust_region_step"] = True
@@ -809,7 +811,7 @@ def scenarios(draw, prof=None):
     tags = list(geo["tags"])
     for k in ("lower", "upper", "scaling", "rhobeg", "x0"):
         case[k] = geo[k]
-    if fam in ("lin", "sinlin", "hashed", "boxdomain"):
+    if fam in ("lin", "sinlin", "hashed", "boxdomain", "hinge"):
         case["A"] = draw(draw_matrix(m, n))
         scale = 10.0 ** draw(st.integers(-1, 1))
         case["A"] = [[v * scale for v in row] for row in case["A"]]
@@ -824,6 +826,13 @@ def scenarios(draw, prof=None):
             tags.append("zero-resid")
         else:
             case["b"] = [draw(g8) * scale * max(geo["mag"], 1.0) for _ in range(m)]
+        if fam == "lin" and not zero and m > n and draw(st.floats(0, 1)) < prof.get("start_at_min", 0.06):
+            # start at the (unconstrained) least-squares minimiser with a non-zero residual: no run can improve on x0, every
+            # restart starts from the best point there is (clipped into the box by solve if it lies outside)
+            xs = np.linalg.lstsq(np.array(case["A"], dtype=float), np.array(case["b"], dtype=float), rcond=None)[0]
+            if np.all(np.isfinite(xs)) and float(np.max(np.abs(xs))) < 1e6:
+                case["x0"] = [float(v) for v in xs]
+                tags[:] = [t for t in tags if not t.startswith("x0:")] + ["start-at-minimiser"]
         if fam == "sinlin":
             case["gamma"] = draw(st.sampled_from([0.1, 0.5, 2.0]))
             case["omega"] = draw(st.sampled_from([1.0, 3.0])) / max(geo["mag"], 1e-2)
